@@ -1,9 +1,11 @@
 """C13 — colour quantisation: structural clauses (same size, valid indices, blend agreement, dither guard, k-d search soundness
 conditions, prune/build shape) and panic-freedom.  Palette optimality, the numeric palette bound, value-level exactness of the
 search, losslessness and the dithering arithmetic are NOT decided."""
+import copy
 import re
-from ..mir import call_matches
-from ..sympath import evaluator, show, strip, subterms, implies_le, const_int, TooManyPaths
+from ..mir import call_matches, Body
+from .. import inline as _inline
+from ..sympath import evaluator, show, strip, subterms, implies_le, implies_le_const, const_int, TooManyPaths
 from .. import oblrules
 
 CLAIM = {
@@ -21,7 +23,8 @@ CLAIM = {
             "NOT claimed: that the palette is optimal; the numeric bound 1..max(requested, 8); exactness of the k-d search as a value-level fact over all palettes; losslessness "
             "when the colours fit; the dithering arithmetic.",
     "technique": "path-sensitive symbolic evaluation of loop-free MIR regions (sa/sympath.py) + template rules on the resulting terms and facts + CFG dominance/loop rules + who-writes "
-                 "scans + abstract interpretation with structurally checked lemmas",
+                 "scans + abstract interpretation with structurally checked lemmas; small single-caller helpers outside the mechanism's named functions are expanded in place before a "
+                 "body is evaluated, and site-level lemmas are filed under the statement's own function",
     "design_ref": "DESIGN.md §5 C13",
 }
 
@@ -43,6 +46,107 @@ ENTRIES = [QUANT, PAL_NEW, PAL_FROM, PAL_FIND]
 NOT_DECIDED = ("NOT decided (value-level, outside static analysis): that the palette is optimal; the numeric bound 1..max(requested, 8) on the palette "
                "size (it rests on OcTreeInfo.leaf_count being the true leaf count and on prune() removing leaves); exactness of the k-d search as a "
                "fact over all palettes (only its structural soundness conditions are decided); losslessness when the colours fit; the dithering arithmetic.")
+
+
+# ------------------------------------------------------------------------------------------------ helper expansion
+# The rules speak about the functions of the quantisation mechanism by name (VOCAB).  Every other small crate-local function
+# whose call sites all lie in one function (a helper extracted from it: sa/inline.py `inlinable`) is expanded in place before a
+# body is evaluated, so that a rule sees the same terms, facts and call sequence whether or not statements were moved into a helper.
+VOCAB = re.compile(
+    r"^image::(Image::quantize|ColorError::(new|between|add)|OcTreeLeaf::(new|from_rgba|to_rgba)|OcTreeNode::(is_empty|take|info)|OcTreeInfo::(empty|join|from_slice)"
+    r"|OcTree::(new|find|build_palette|build_palette::palette_rec|node_update|insert|insert::insert_rec|prune_until|prune|prune::argmin_color_count|prune::prune_rec)"
+    r"|OcTreePath::(new|rgba)|KDTree::(new|new::build_rec|find|find::dist|find::find_rec)|ColorPalette::(new|from_image|from_image::blend|size|get|colors|find|find_naive))$")
+
+
+def in_vocab(path):
+    return not path.startswith("image::") or VOCAB.match(path) is not None
+
+
+def expand(prog, path, depth=_inline.MAX_DEPTH):
+    """Body of `path` with every inlinable helper outside VOCAB expanded in place (same transformation as sa/inline.py; blocks that
+    come from a helper carry `inl_from` = its path and `inl_bb` = their block number there).  The plain body when there is none."""
+    cache = prog.__dict__.setdefault("_c13_expand", {})
+    if path in cache:
+        return cache[path]
+    base = prog.body(path)
+    if base is None:
+        return None
+    root = base.closure_root or base.path
+    j = None
+    work = list(range(len(base.blocks)))
+    level = {i: 0 for i in work}
+    blocks, locals_, vars_ = base.blocks, base.locals, base.j["vars"]
+    n = 0
+    while work:
+        bb = work.pop(0)
+        blk = blocks[bb]
+        t = blk["term"]
+        if t["k"] != "call" or level.get(bb, 0) >= depth or blk["cleanup"]:
+            continue
+        f = t["fn"]
+        cpath = f.get("resolved") if f.get("resolved_local") else (f.get("path") if f.get("local") else None)
+        callee = prog.body(cpath) if cpath else None
+        if callee is None or in_vocab(callee.path) or len(t["args"]) != callee.arg_count or not _inline.inlinable(prog, callee, root):
+            continue
+        if j is None:
+            j = copy.deepcopy(base.j)
+            blocks, locals_, vars_ = j["blocks"], j["locals"], j["vars"]
+            blk = blocks[bb]
+            t = blk["term"]
+        lo, bo = len(locals_), len(blocks)
+        locals_.extend(copy.deepcopy(callee.locals))
+        for v in callee.j["vars"]:
+            vars_.append({"name": v["name"], "place": _inline._shift(v["place"], lo, 0)})
+        for k, a in enumerate(t["args"]):
+            blk["stmts"].append({"k": "assign", "place": {"l": lo + 1 + k, "p": []}, "rv": {"k": "use", "a": a}, "line": t.get("line", 0), "exp": False, "expk": "", "inl_arg": callee.path})
+        dest, target, line = t["dest"], t["t"], t.get("line", 0)
+        blk["term"] = {"k": "goto", "t": bo, "inl_call": callee.path, "line": line}
+        for i, cb in enumerate(callee.blocks):
+            nb = _inline._shift(cb, lo, bo)
+            nb["inl_from"], nb["inl_bb"] = callee.path, i
+            if nb["term"]["k"] == "return":
+                nb["stmts"].append({"k": "assign", "place": dest, "rv": {"k": "use", "a": {"k": "move", "place": {"l": lo, "p": []}}}, "line": line, "exp": False, "expk": "", "inl_ret": callee.path})
+                nb["term"] = {"k": "goto", "t": target} if target >= 0 else {"k": "unreachable"}
+            blocks.append(nb)
+            level[bo + i] = level.get(bb, 0) + 1
+            work.append(bo + i)
+        n += 1
+    if j is None:
+        cache[path] = base
+        return base
+    j["inlined_calls"] = n
+    nb = Body(j, prog)
+    cache[path] = nb
+    return nb
+
+
+def owner(prog, path):
+    """the function of the mechanism a body belongs to: itself, the function its closure is written in, or -- for a helper outside VOCAB that
+    expand() puts into the one function using it -- that function (transitively)"""
+    seen = set()
+    while path not in seen:
+        seen.add(path)
+        b = prog.body(path)
+        if b is None:
+            return path
+        root = b.closure_root or b.path
+        if in_vocab(root):
+            return root
+        callers = set()
+        for c in prog.callgraph().callers(root):
+            cb = prog.body(c)
+            callers.add((cb.closure_root or cb.path) if cb is not None else c)
+        callers.discard(root)
+        if len(callers) != 1 or not _inline.inlinable(prog, prog.body(root), next(iter(callers))):
+            return root
+        path = next(iter(callers))
+    return path
+
+
+def home_of(body, bb):
+    """(path, block) in the program's own bodies of block bb of an expanded body"""
+    blk = body.blocks[bb]
+    return (blk.get("inl_from") or body.path, blk.get("inl_bb", bb))
 
 
 # ------------------------------------------------------------------------------------------------ term helpers
@@ -80,6 +184,17 @@ def contains(t, sub):
     return any(x == sub for x in subterms(t))
 
 
+def variant_known(facts, t, discr, every=("0", "1")):
+    """the facts pin the discriminant of t to `discr`: directly (`Some(x) =>` arm), or by excluding every other variant (`else` of an `if let`,
+    `_ =>` arm); `every` = all discriminants of the type (default: Option / ControlFlow)"""
+    for f in facts:
+        if f[0] == "is" and f[1] == t and f[2] == discr:
+            return True
+        if f[0] == "isnot" and f[1] == t and set(every) - set(f[2]) == {discr}:
+            return True
+    return False
+
+
 def closure_body(prog, t):
     """body of the closure whose environment aggregate is term t"""
     if isinstance(t, tuple) and t[0] == "agg" and t[1].startswith("closure:"):
@@ -91,6 +206,21 @@ def closure_upvars(t):
     return t[3] if isinstance(t, tuple) and t[0] == "agg" else ()
 
 
+PANIC_FN = r"^core::panicking::|^std::rt::(begin_panic|panic_fmt)|panic_display|panic_explicit|unreachable_display|assert_failed|^core::(option|result)::(expect|unwrap)_failed"
+
+
+def panics(body, p):
+    """path p ends in a call of a panic entry point (`assert!`/`debug_assert!`/`unreachable!` failure arm): whether such a path can be taken
+    is the TOTAL clause's business (every panic site is an obligation there); the structural clauses speak about the paths that return"""
+    return p.end[0] == "diverge" and call_matches(body.blocks[p.end[1]]["term"], PANIC_FN)
+
+
+def mut_arg(c, pred):
+    """does call c take by `&mut` an argument whose term satisfies pred"""
+    tys = c.t.get("arg_tys", [])
+    return any(pred(a) and i < len(tys) and re.match(r"^&('\w+ )?mut ", tys[i]) for i, a in enumerate(c.args))
+
+
 def paths_of(ctx, rule, body, start=0, stop=()):
     """returning paths of a loop-free body/region; anchors (fail closed) when the region is not loop free"""
     ev = evaluator(body)
@@ -99,7 +229,7 @@ def paths_of(ctx, rule, body, start=0, stop=()):
     except TooManyPaths:
         ctx.anchor(rule, body.path + "/too-many-paths")
         return ev, None
-    ps = [p for p in ps if p.end[0] not in ("infeasible", "unreachable")]
+    ps = [p for p in ps if p.end[0] not in ("infeasible", "unreachable") and not panics(body, p)]
     if any(p.end[0] == "loop" for p in ps):
         ctx.anchor(rule, body.path + "/unexpected-loop", "%s contains a loop the rule does not understand" % body.path)
         return ev, None
@@ -154,6 +284,28 @@ def loop_early_exits(body, lp, allow_unless_reaches=()):
     return out
 
 
+def flag_edges(body, ev, flag):
+    """(edges taken only when the boolean term `flag` is true, edges taken only when it is false) over `if flag` / `if !flag` / `match flag`"""
+    on, off = [], []
+    for x, blk in enumerate(body.blocks):
+        t = blk["term"]
+        if t["k"] != "switch" or len(t["vals"]) != 1 or t["vals"][0] not in ("0", "1"):
+            continue
+        d = ev.operand(t["d"], None)
+        neg = False
+        while isinstance(d, tuple) and d[0] == "un" and d[1] == "Not":
+            d, neg = d[2], not neg
+        if d != flag:
+            continue
+        zero, other = (t["targets"][0], t["otherwise"]) if t["vals"][0] == "0" else (t["otherwise"], t["targets"][0])
+        if zero == other:
+            continue
+        # `zero` is taken when the switched value is false
+        (on if neg else off).append((x, zero))
+        (off if neg else on).append((x, other))
+    return on, off
+
+
 def range_of(it):
     """(start, end) when the iterator term is into_iter(Range{start, end}) / Range{..}"""
     t = it
@@ -206,12 +358,12 @@ def run(ctx):
 
     bodies = {}
     for p in (QUANT, PAL_NEW, PAL_FROM, PAL_FIND, BLEND, KD_NEW, KD_BUILD, KD_FIND, KD_REC, KD_DIST, OC_PRUNE_UNTIL, OC_BUILD, OC_BUILD_REC):
-        b = prog.body(p)
-        if b is None:
+        b = expand(prog, p)
+        if b is None and p != KD_DIST:      # the metric may be written out in find_rec itself
             ctx.rule("ANCHORS", "functions named by the property's mechanism exist", floor=0)
             ctx.anchor("ANCHORS", p)
         bodies[p] = b
-    if any(b is None for b in bodies.values()):
+    if any(b is None for p, b in bodies.items() if p != KD_DIST):
         return
 
     q = quantize_shape(ctx, bodies)
@@ -425,7 +577,7 @@ def index_valid(ctx, bodies, q):
 
     # 4 KDNode writers
     aggs, stores, muts = adt_writers(prog, "image::KDNode")
-    where = sorted({bb_.path for bb_, s in aggs})
+    where = sorted({owner(prog, bb_.path) for bb_, s in aggs})
     ok = where == [KD_BUILD] and not stores and not muts
     ctx.instance(R, {"KDNode_constructed_in": where, "field_stores": [(x[0].path, x[2]) for x in stores], "mut_borrows": [(x[0].path, x[2]) for x in muts], "ok": ok})
     if not ok:
@@ -458,7 +610,7 @@ def index_valid(ctx, bodies, q):
                     if not ok:
                         ctx.violation(R, KD_BUILD, "sub-slices", "build_rec recurses on %s / %s instead of a sub-slice of its colours and its own node vector" % (show(sl)[:120], show(c.args[1])[:60]),
                                       sites=["%s:%d" % (kb.file, c.t["line"])])
-            bad = [c for c in p.calls if any(contains(a, ("arg", 3)) for a in c.args)
+            bad = [c for c in p.calls if mut_arg(c, lambda a: contains(a, ("arg", 3)))
                    and not c.matches(r"sort_by_key$|sort_by$|sort_unstable_by_key$|sort_by_cached_key$|slice::<impl \[T\]>::len$|index_mut$|Index.*::index$|^image::KDTree::new::build_rec$|::push$")]
             bad_st = [s_ for s_ in p.stores if contains(s_[0], ("arg", 3))]
             if bad or bad_st:
@@ -506,7 +658,7 @@ def index_valid(ctx, bodies, q):
             ctx.violation(R, KD_NEW, "enumerate", "KDTree::new does not number the colours with enumerate() directly over its argument slice (only iter/map(to_rgb)/copied before, nothing after), "
                           "or does not store the node vector it built: %s" % (chain_txt[:240] if chain_txt else None), sites=[kn.loc])
     aggs, stores, muts = adt_writers(prog, "image::KDTree")
-    where = sorted({bb_.path for bb_, s in aggs})
+    where = sorted({owner(prog, bb_.path) for bb_, s in aggs})
     ok = where == [KD_NEW] and not stores and not muts
     ctx.instance(R, {"KDTree_constructed_in": where, "field_stores": [(x[0].path, x[2]) for x in stores], "mut_borrows": [(x[0].path, x[2]) for x in muts], "ok": ok})
     if not ok:
@@ -536,7 +688,7 @@ def index_valid(ctx, bodies, q):
         if not ok:
             ctx.violation(R, PAL_NEW, "palette-new", "ColorPalette::new does not (reject an empty vector and) store the same `colors` it built the k-d tree from: %s" % [show(p.ret)[:160] for p in ps], sites=[pn.loc])
     aggs, stores, muts = adt_writers(prog, "image::ColorPalette")
-    where = sorted({bb_.path for bb_, s in aggs})
+    where = sorted({owner(prog, bb_.path) for bb_, s in aggs})
     ok = where == [PAL_NEW] and not stores and not muts
     ctx.instance(R, {"ColorPalette_constructed_in": where, "field_stores": [(x[0].path, x[2]) for x in stores], "mut_borrows": [(x[0].path, x[2]) for x in muts], "ok": ok})
     if not ok:
@@ -681,17 +833,13 @@ def mapped_colour(p, q):
 # =================================================================================================================
 def dither_guard(ctx, bodies, q):
     R = "DITHER-GUARD"
-    ctx.rule(R, "every access to the error rows lies under `if dither`; with dither == false the colour looked up is the (blended) source pixel itself", floor=10)
+    ctx.rule(R, "every access to the error rows lies under `if dither`; with dither == false the colour looked up is the (blended) source pixel itself", floor=4)
     b = bodies[QUANT]
     ev = evaluator(b)
     cfg = b.cfg()
     dither = ("arg", 3)
     # edges taken only when dither is true
-    true_edges = []
-    for x in range(len(b.blocks)):
-        t = b.blocks[x]["term"]
-        if t["k"] == "switch" and ev.operand(t["d"], None) == dither and t["vals"] == ["0"]:
-            true_edges.append((x, t["otherwise"]))
+    true_edges, _false_edges = flag_edges(b, ev, dither)
     vecs = [l for l in range(len(b.locals)) if b.local_ty(l).startswith("std::vec::Vec<")]
     vterms = {ev.local(l, None) for l in vecs if len(b.defs_of(l)) == 1}
     n = 0
@@ -747,6 +895,68 @@ def sq_diff(t):
     return None
 
 
+def metric_of(t, tgt, col, prog=None, width=None, closures=None):
+    """channel numbers [i, ..] when t is a sum of squares (tgt[i] - col[i])^2 (either operand order, pow(_, 2) or d * d) over signed widenings of
+    the two colours' channels; None when it is anything else.  The iterator form `tgt.iter().zip(col.iter()).map(|(a, b)| (a - b)^2).sum()` covers
+    the channels 0..width, width = common length of the two arrays (given by the caller from their types)"""
+    t0 = strip(t)
+    if prog is not None and width and is_call(t0, r"Iterator::sum$") and len(t0[2]) == 1 and is_call(t0[2][0], r"Iterator::map$"):
+        zp, clo = t0[2][0][2]
+        if not (is_call(zp, r"Iterator::zip$") and len(zp[2]) == 2):
+            return None
+        its = []
+        for x in zp[2]:
+            while is_call(x, r"::into_iter$") and len(x[2]) == 1:
+                x = x[2][0]
+            its.append(x[2][0] if is_call(x, r"slice::<impl \[T\]>::iter$|array::.*::iter$") else x)
+        if sorted(its, key=repr) != sorted([tgt, col], key=repr):
+            return None
+        cb = closure_body(prog, clo)
+        if cb is None:
+            return None
+        try:
+            cps = [cp for cp in evaluator(cb).paths(0, []) if cp.end[0] not in ("infeasible", "unreachable")]
+        except TooManyPaths:
+            return None
+        pair = {field(("arg", 2), "0"), field(("arg", 2), "1")}
+        for cp in cps:
+            ab = sq_diff(cp.ret) if cp.end[0] == "return" and cp.ret is not None else None
+            if ab is None or {strip(uncast(ab[0])), strip(uncast(ab[1]))} != pair:
+                return None
+            if not all(re.match(r"^i(32|64|128)$|^isize$", c[1]) for c in subterms(cp.ret) if c[0] == "cast"):
+                return None
+        if not cps:
+            return None
+        if closures is not None:
+            closures.add(cb.path)
+        return list(range(width))
+    chans = []
+    for s in sum_terms(t):
+        ab = sq_diff(s)
+        if ab is None:
+            return None
+        a, b = uncast(ab[0]), uncast(ab[1])
+        pair = None
+        for x, y in ((a, b), (b, a)):
+            if x[0] == "ix" and strip(x[1]) == tgt and y[0] == "ix" and strip(y[1]) == col and x[2] == y[2]:
+                pair = const_int(x[2])
+        if pair is None:
+            return None
+        chans.append(pair)
+    if not all(re.match(r"^i(32|64|128)$|^isize$", c[1]) for c in subterms(t) if c[0] == "cast"):
+        return None
+    return chans
+
+
+def chan_width(prog, target_ty):
+    """common length of the target colour array and KDNode.color (None when they are not arrays of known length)"""
+    kn = prog.adts.get("image::KDNode") or {"variants": []}
+    col_ty = [f.get("ty") for v in kn["variants"] for f in v.get("fields", []) if f.get("name") == "color"]
+    m1 = re.fullmatch(r"\[u8; (\d+)\]", target_ty or "")
+    m2 = re.fullmatch(r"\[u8; (\d+)\]", col_ty[0]) if len(col_ty) == 1 else None
+    return min(int(m1.group(1)), int(m2.group(1))) if m1 and m2 else None
+
+
 def uncast(t):
     while isinstance(t, tuple) and t[0] == "cast":
         t = t[2]
@@ -766,33 +976,20 @@ def nearest_shape(ctx, bodies):
                 "with plane distance >= best; build: median partition in the node's own dimension, root pushed last", floor=15)
     kd = {"dim_ok": False, "ids_ok": False}
     # ---- metric -----------------------------------------------------------------------------------------------
+    # decided on the helper `dist` when it exists; a metric written out in find_rec itself is decided there (below)
     db = bodies[KD_DIST]
-    ev, ps = paths_of(ctx, R, db)
     metric_ok = False
-    if ps is not None:
-        metric_ok = len(ps) == 1 and ps[0].ret is not None
-        got = None
-        if metric_ok:
-            chans = []
-            for s in sum_terms(ps[0].ret):
-                ab = sq_diff(s)
-                if ab is None:
-                    metric_ok = False
-                    break
-                a, b = uncast(ab[0]), uncast(ab[1])
-                pair = None
-                for x, y in ((a, b), (b, a)):
-                    if x[0] == "ix" and x[1] == ("arg", 1) and y[0] == "ix" and y[1] == field(("arg", 2), "color") and x[2] == y[2]:
-                        pair = const_int(x[2])
-                chans.append(pair)
-            got = chans
-            metric_ok = metric_ok and sorted(c for c in chans if c is not None) == [0, 1, 2] and len(chans) == 3
-            casts_ok = all(re.match(r"^i(32|64|128)$|^isize$", c[1]) for c in subterms(ps[0].ret) if c[0] == "cast")
-            metric_ok = metric_ok and casts_ok
-        ctx.instance(R, {"dist": show(ps[0].ret)[:240] if ps and ps[0].ret else None, "channels": got, "is_sum_of_squared_differences_over_r_g_b": metric_ok})
-        if not metric_ok:
-            ctx.violation(R, KD_DIST, "metric", "the k-d tree metric is not the sum of squared signed differences over exactly the channels 0,1,2 of (target, node.color): channels %s in %s"
-                          % (got, show(ps[0].ret)[:240] if ps and ps[0].ret else None), sites=[db.loc])
+    metric_closures = kd["metric_closures"] = set()      # closures that compute one squared channel difference (iterator form of the metric)
+    if db is not None:
+        ev, ps = paths_of(ctx, R, db)
+        if ps is not None:
+            got = metric_of(ps[0].ret, ("arg", 1), field(("arg", 2), "color"), ctx.prog, chan_width(ctx.prog, db.local_ty(1)), metric_closures) \
+                if len(ps) == 1 and ps[0].ret is not None else None
+            metric_ok = got is not None and sorted(got) == [0, 1, 2]
+            ctx.instance(R, {"dist": show(ps[0].ret)[:240] if ps and ps[0].ret else None, "channels": got, "is_sum_of_squared_differences_over_r_g_b": metric_ok})
+            if not metric_ok:
+                ctx.violation(R, KD_DIST, "metric", "the k-d tree metric is not the sum of squared signed differences over exactly the channels 0,1,2 of (target, node.color): channels %s in %s"
+                              % (got, show(ps[0].ret)[:240] if ps and ps[0].ret else None), sites=[db.loc])
 
     # ---- search ------------------------------------------------------------------------------------------------
     fr = bodies[KD_REC]
@@ -804,8 +1001,18 @@ def nearest_shape(ctx, bodies):
     dimN = field(N, "dim")
     child = {"left": field(N, "left"), "right": field(N, "right")}
 
-    def dist_of(node):
-        return [("call", KD_DIST, (target, node), None)]
+    inline_metric = set()       # distance of this node written out in find_rec: sum of squared differences over r,g,b of (target, node.color)
+
+    def node_dists(p):
+        """terms on path p that are the distance between the target and this node"""
+        out = [("call", KD_DIST, (target, N), None)] if db is not None else []
+        for f in [strip(f) for f in p.facts] + [strip(p.ret)]:
+            for t in subterms(f):
+                if (t[0] == "bin" and t[1].startswith("Add") or is_call(t, r"Iterator::sum$")) and t not in out \
+                        and sorted(metric_of(t, target, field(N, "color"), ctx.prog, chan_width(ctx.prog, fr.local_ty(3)), metric_closures) or []) == [0, 1, 2]:
+                    out.append(t)
+                    inline_metric.add(t)
+        return out
 
     def plane_like(t):
         """(i, j) index terms when t is (target[i] - node.color[j])^2 in either operand order"""
@@ -830,7 +1037,7 @@ def nearest_shape(ctx, bodies):
         return None
 
     viol = {}       # shape -> message (first)
-    counts = {"paths": 0, "skips": 0, "explored": 0}
+    counts = {"paths": 0, "skips": 0, "explored": 0, "exact": 0}
 
     def report(shape, msg):
         viol.setdefault(shape, msg)
@@ -842,10 +1049,12 @@ def nearest_shape(ctx, bodies):
         counts["paths"] += 1
         facts = [strip(f) for f in p.facts]
         recs = [c for c in p.calls if c.matches(r"^image::KDTree::find::find_rec$")]
-        others = [c for c in p.calls if not c.matches(r"^image::KDTree::find::(find_rec|dist)$|::pow$")]
+        # predicates and lengths computed without `&mut` arguments (conditions of assertions) are neither candidates nor (i32) distances
+        others = [c for c in p.calls if not c.matches(r"^image::KDTree::find::(find_rec|dist)$|::pow$")
+                  and not (fr.local_ty(c.t["dest"]["l"]) in ("bool", "usize") and not c.t["dest"]["p"] and not mut_arg(c, lambda a: True))]
         if others:
             report("calls", "find_rec calls %s, which the rule does not understand" % others[0].name)
-        cands = [(N, ("call", KD_DIST, (target, N), None))]
+        cands = [(N, d) for d in node_dists(p)]
         explored = set()
         for c in recs:
             a = [strip(x) for x in c.args]
@@ -858,6 +1067,8 @@ def nearest_shape(ctx, bodies):
             cands.append((field(r, "0"), field(r, "1")))
         counts["explored"] += len(explored)
         r = strip(p.ret)
+        if r[0] != "tuple":         # a (node, distance) pair handed on as a whole (`best = near_best; .. return best`)
+            r = ("tuple", (field(r, "0"), field(r, "1")))
         if not (r[0] == "tuple" and len(r[1]) == 2 and (r[1][0], r[1][1]) in cands):
             report("candidates", "find_rec returns %s, which is not (node, dist(target, node)) of this node or the (node, distance) pair of one recursive result" % show(r)[:200])
             continue
@@ -867,11 +1078,16 @@ def nearest_shape(ctx, bodies):
                 report("best-update", "on a path the returned distance %s is not shown <= the visited candidate's %s by the comparisons taken (%s)"
                        % (show(best)[:80], show(cd)[:80], [show(f)[:120] for f in facts if f[0] in ("lt", "le")]))
         sides = [s for s in (side_fact(f) for f in facts) if s]
+        # every distance is a sum of squares (metric clause): once the best distance is known to be <= 0 nothing can be strictly closer
+        exact = metric_ok and implies_le_const(facts, best, 0)
         for k, v in child.items():
             if k in explored:
                 continue
-            if ("is", v, "0") in facts:
+            if variant_known(facts, v, "0"):
                 continue        # no child on that side
+            if exact:
+                counts["exact"] += 1
+                continue
             counts["skips"] += 1
             # the skipped child must lie across the plane: right child needs target <= color[dim], left child needs color[dim] <= target
             need = "below" if k == "right" else "above"
@@ -896,6 +1112,14 @@ def nearest_shape(ctx, bodies):
             else:
                 report("far-prune", "the %s (far) child is skipped on a path without the guard plane_distance >= best, plane_distance = (target[node.dim] - node.color[node.dim])^2; upper bounds of best on that path: %s"
                        % (k, [show(u)[:100] for u in ups]))
+    if db is None:
+        metric_ok = bool(inline_metric)
+        ctx.instance(R, {"dist": "written out in find_rec: %s" % [show(t)[:200] for t in sorted(inline_metric, key=repr)][:1], "channels": [0, 1, 2] if metric_ok else None,
+                         "is_sum_of_squared_differences_over_r_g_b": metric_ok})
+        if not metric_ok:
+            ctx.violation(R, KD_REC, "metric", "find_rec neither calls the metric helper `dist` nor computes the sum of squared signed differences over the channels 0,1,2 of "
+                                               "(target, node.color) for the node it visits", sites=[fr.loc])
+    kd["inline_metric"] = inline_metric
     shapes = [("candidates", "returned pair is this node with its distance or a recursive result pair"),
               ("rec-args", "recursion passes the same node slice and target and a child index of this node"),
               ("best-update", "returned distance <= every visited candidate's by the comparisons on the path"),
@@ -958,7 +1182,7 @@ def nearest_shape(ctx, bodies):
         f = dict(zip(push.args[1][4], push.args[1][3]))
         # returned index = nodes.len() - 1 right after the push, and the push is the last event touching the node vector
         ln = [c for c in p.calls if c.matches(r"Vec::<T, A>::len$") and c.args[0] == nvec and c.pos > push.pos]
-        later = [c for c in p.calls if c.pos > push.pos and not c.matches(r"Vec::<T, A>::len$") and any(contains(a, nvec) for a in c.args)]
+        later = [c for c in p.calls if c.pos > push.pos and mut_arg(c, lambda a: contains(a, nvec))]
         okret = r is not None and r[0] == "agg" and r[2] == "Some" and bool(ln) and strip(r[3][0]) == ("bin", "Sub", strip(ln[0].term), ("c", "1")) and not later
         if not okret:
             okb["build-order"] = False
@@ -984,6 +1208,7 @@ def nearest_shape(ctx, bodies):
             up = closure_upvars(sorts[0].args[1])
             if cb is not None:
                 evc, cps = paths_of(ctx, R, cb)
+                kd.setdefault("sort_closures", set()).add(cb.path)
                 key_ok = bool(cps)
                 for cp in cps or []:
                     rr = strip(cp.ret) if cp.ret is not None else None
@@ -1101,21 +1326,44 @@ def palette_bound(ctx, bodies):
             ps = None
         lc = field(field(("arg", 1), "info"), "leaf_count")
 
-        def bound_ok(t):
+        def bound_ok(t, facts):
+            """t is the requested count, max(requested, const), or -- on a path whose facts say requested < K or requested <= K -- the constant K
+            (the two arms of `if requested < K { K } else { requested }` together are max(requested, K))"""
             t = strip(t)
             if t == ("arg", 2):
                 return True
-            return is_call(t, r"::max$") and len(t[2]) == 2 and ("arg", 2) in t[2] and all(x == ("arg", 2) or const_int(x) is not None for x in t[2])
+            if is_call(t, r"::max$") and len(t[2]) == 2 and ("arg", 2) in t[2] and all(x == ("arg", 2) or const_int(x) is not None for x in t[2]):
+                return True
+            k = const_int(t)
+            return k is not None and any(f[0] == "lt" and f[1] == ("arg", 2) and const_int(f[2]) in (k, k + 1) for f in facts)
+
+        def le_bound(f):
+            """B of a fact leaf_count <= B"""
+            if f[0] == "le" and f[1] == lc:
+                return f[2]
+            if f[0] == "lt" and f[1] == lc and const_int(f[2]) is not None:
+                return ("c", str(const_int(f[2]) - 1))
+            return None
+
+        def gt_bound(f):
+            """B of a fact B < leaf_count"""
+            return f[1] if f[0] == "lt" and f[2] == lc else None
         if ps:
             ok = True
             detail = []
             for p in ps:
-                fs = [strip(f) for f in p.facts if contains(f, lc)]
-                detail.append((p.end[0], [show(f) for f in fs]))
+                if p.end[0] in ("infeasible", "unreachable"):
+                    continue
+                facts = [strip(f) for f in p.facts]
+                fs = [f for f in facts if contains(f, lc)]
+                detail.append((p.end[0], [show(f) for f in facts]))
+                n_prune = sum(1 for c in p.calls if c.matches(r"OcTree::prune$") and c.args[0] == ("arg", 1))
                 if p.end[0] == "return":
-                    ok = ok and len(fs) == 1 and fs[0][0] == "le" and fs[0][1] == lc and bound_ok(fs[0][2]) and not any(c.matches(r"OcTree::prune$") for c in p.calls)
+                    bnd = le_bound(fs[0]) if len(fs) == 1 else None
+                    ok = ok and bnd is not None and bound_ok(bnd, facts) and n_prune == 0
                 elif p.end[0] == "loop":
-                    ok = ok and len(fs) == 1 and fs[0][0] == "lt" and fs[0][2] == lc and bound_ok(fs[0][1]) and sum(1 for c in p.calls if c.matches(r"OcTree::prune$") and c.args[0] == ("arg", 1)) == 1
+                    bnd = gt_bound(fs[0]) if len(fs) == 1 else None
+                    ok = ok and bnd is not None and bound_ok(bnd, facts) and n_prune == 1 and len([c for c in p.calls if c.matches(r"OcTree::prune$")]) == 1
                 else:
                     ok = False
             ok = ok and {e for e, _ in detail} == {"return", "loop"}
@@ -1140,9 +1388,8 @@ def palette_bound(ctx, bodies):
         n_leaf = 0
         why = None
         for p in ps:
-            var = [f[2] for f in p.facts if f[0] == "is" and f[1] == node]
             pushes = [c for c in p.calls if c.matches(r"Vec::<T, A>::push$")]
-            if var == [vs["Leaf"]]:
+            if variant_known(p.facts, node, vs["Leaf"], tuple(vs.values())):
                 n_leaf += 1
                 st = [s for s in p.stores if s[0] == field(leaf, "index")]
                 good = len(pushes) == 1 and len(st) == 1 and pushes[0].args[0] == pal and is_call(pushes[0].args[1], r"^image::OcTreeLeaf::to_rgba$") and pushes[0].args[1][2] == (leaf,)
@@ -1172,7 +1419,36 @@ def palette_bound(ctx, bodies):
         recs = [(bb, t) for bb, t in body.calls() if call_matches(t, r"^image::OcTree::build_palette::palette_rec$")]
         ok = len(lps) == 1 and len(recs) == 1
         it = None
-        if ok:
+        fes = [(bb, t) for bb, t in body.calls() if call_matches(t, r"Iterator::for_each$")]
+        if not lps and not recs and len(fes) == 1:
+            # `children.iter_mut().for_each(|child| palette_rec(child, palette))`: the closure runs once for every element
+            it = ev2.operand(fes[0][1]["args"][0], None)
+            clo = ev2.operand(fes[0][1]["args"][1], None)
+            t = strip(it)
+            wrapped = False
+            while is_call(t, r"::into_iter$") and len(t[2]) == 1:
+                t = t[2][0]
+                wrapped = True
+            ok = (is_call(t, r"slice::<impl \[T\]>::iter_mut$") and t[2] == (base,)) or (wrapped and t == base)
+            cb = closure_body(prog, clo)
+            up = closure_upvars(clo)
+            palv = None
+            evc, cps = paths_of(ctx, R, cb) if cb is not None else (None, None)
+            ok = ok and bool(cps)
+            for cp in cps or []:
+                cs = [c for c in cp.calls if c.matches(r"^image::OcTree::build_palette::palette_rec$")]
+                good = len(cs) == 1 and len(cp.calls) == 1 and cp.end[0] == "return" and cs[0].args[0] == ("arg", 2)
+                if good:
+                    a1 = cs[0].args[1]
+                    good = a1[0] == "f" and a1[1] == ("arg", 1) and a1[2].isdigit() and int(a1[2]) < len(up)
+                    palv = up[int(a1[2])] if good else None
+                ok = ok and good
+            if ok and nm == "palette_rec":
+                ok = palv == ("arg", 2)
+            elif ok:
+                rets = [ev2.rvalue(s_["rv"], None) for bb, si, s_ in body.assigns() if s_["place"]["l"] == 0 and not s_["place"]["p"]]
+                ok = is_call(palv, r"Vec::<T>::new$|Vec::<T>::with_capacity$") and rets == [palv]
+        elif ok:
             lp = lps[0]
             it = lp["iter"]
             t = strip(it)
@@ -1188,7 +1464,7 @@ def palette_bound(ctx, bodies):
                 ok = ok and a[1] == ("arg", 2)
             else:
                 rets = [ev2.rvalue(s["rv"], None) for bb, si, s in body.assigns() if s["place"]["l"] == 0 and not s["place"]["p"]]
-                ok = ok and is_call(palv, r"Vec::<T>::new$") and rets == [palv]
+                ok = ok and is_call(palv, r"Vec::<T>::new$|Vec::<T>::with_capacity$") and rets == [palv]
         ctx.instance(R, {nm: "for child in %s { palette_rec(child, palette) }" % (show(it)[:100] if it else None), "visits_every_child_with_the_same_palette": bool(ok)})
         if not ok:
             ctx.violation(R, body.path, "all-children", "%s does not hand every element of `children` (iter_mut) to palette_rec with the one palette vector (that is returned)" % nm, sites=[body.loc])
@@ -1203,6 +1479,74 @@ def site_key_by_bb(body):
     obs = [o for o in obligations.collect(body, lossy=False, unsafe=True) if not o.exp]
     keys = oblrules.site_keys(obs)
     return {o.bb: keys[id(o)] for o in obs if o.term is not None}, obs, keys
+
+
+class SiteLemmas:
+    """Site-level lemmas decided on expanded bodies and filed under the obligation's home (the body the statement is written in, and
+    its site key there).  A statement of a helper that is expanded at several call sites gets the lemma only when every copy qualifies."""
+
+    def __init__(self, prog, lemmas):
+        self.prog, self.lemmas, self._keys, self.votes = prog, lemmas, {}, {}
+
+    def key(self, xb, bb):
+        path, hb = home_of(xb, bb)
+        if path not in self._keys:
+            hbody = self.prog.body(path)
+            self._keys[path] = site_key_by_bb(hbody)[0] if hbody is not None else {}
+        k = self._keys[path].get(hb)
+        return (path, k) if k is not None else None
+
+    def vote(self, xb, bb, good, lemma):
+        k = self.key(xb, bb)
+        if k is not None:
+            self.votes.setdefault(k, []).append((bool(good), lemma))
+
+    def commit(self):
+        for k, vs in self.votes.items():
+            if all(g for g, _ in vs) and k not in self.lemmas:
+                self.lemmas[k] = vs[0][1]
+        self.votes = {}
+
+
+def bounds_checks(xb, ev):
+    """(block, index term, length term) of the scalar bounds checks (`a[i]` on arrays and slices) of an expanded body"""
+    out = []
+    for x, blk in enumerate(xb.blocks):
+        t = blk["term"]
+        if not blk["cleanup"] and t["k"] == "assert" and t["msg"].get("kind") == "BoundsCheck":
+            out.append((x, strip(ev.operand(t["msg"]["index"], None)), strip(ev.operand(t["msg"]["len"], None))))
+    return out
+
+
+def copies_of(prog, b, bb):
+    """where block bb of body b is evaluated: [(expanded body, block)] -- b itself, or, for a helper expanded into the one function that
+    uses it, its copies there (empty when b is neither)"""
+    root = b.closure_root or b.path
+    if b.closure_root:
+        return [(b, bb)]
+    if in_vocab(root):
+        return [(expand(prog, root), bb)]
+    callers = set()
+    for c in prog.callgraph().callers(root):
+        cb = prog.body(c)
+        callers.add((cb.closure_root or cb.path) if cb is not None else c)
+    callers.discard(root)
+    out = []
+    seen = set()
+    while len(callers) == 1 and not out:
+        c = callers.pop()
+        if c in seen:
+            break
+        seen.add(c)
+        if in_vocab(c):
+            xb = expand(prog, c)
+            out = [(xb, x) for x, blk in enumerate(xb.blocks) if blk.get("inl_from") == b.path and blk.get("inl_bb") == bb] if xb is not None else []
+        else:
+            for c2 in prog.callgraph().callers(c):
+                cb = prog.body(c2)
+                callers.add((cb.closure_root or cb.path) if cb is not None else c2)
+            callers.discard(c)
+    return out
 
 
 def usize_operands(body, o):
@@ -1248,17 +1592,35 @@ def linear_max(t, loops_by_item, ew, width):
     return None
 
 
+def dim_below_3(d, facts, in_build_rec):
+    """is the `dim` argument of a build_rec call below 3: a constant, `_ % k` with k <= 3, or -- inside build_rec, whose own `dim` is below 3 by
+    induction over all its call sites -- `dim + 1` on a path that excludes dim == 2 (`if dim == 2 { 0 } else { dim + 1 }`)"""
+    c = const_int(d)
+    if c is not None:
+        return 0 <= c < 3
+    if d[0] == "bin" and d[1] == "Rem" and const_int(d[3]) is not None and 1 <= const_int(d[3]) <= 3:
+        return True
+    if in_build_rec and d[0] == "bin" and d[1] == "Add" and sorted([d[2], d[3]], key=repr) == sorted([("arg", 1), ("c", "1")], key=repr):
+        return any(f == ("ne", ("arg", 1), ("c", "2")) or (f[0] == "lt" and f[1] == ("arg", 1) and const_int(f[2]) is not None and const_int(f[2]) <= 2) for f in facts)
+    return False
+
+
+def is_half(t, is_len):
+    """t is len / k (k >= 2) or len >> k (k >= 1) of the slice"""
+    return t[0] == "bin" and is_len(t[2]) and ((t[1] == "Div" and (const_int(t[3]) or 0) >= 2) or (t[1] == "Shr" and (const_int(t[3]) or 0) >= 1))
+
+
 def total(ctx, bodies, q, kd):
     prog = ctx.prog
     lemmas, trusts = {}, {}
+    sites = SiteLemmas(prog, lemmas)
     clean = lambda *rules: not any(v.rule in rules for v in ctx.violations)   # noqa: E731
 
     # ---------------- ERR-ROWS: errors.len() == 2 * ewidth under dither, every index below it ----------------------------
     R = "ERR-ROWS"
-    ctx.rule(R, "under dither the error vector is resized once to 2*ewidth (ewidth = width + 2) before the loops and every index col [+ ewidth] [+ k] stays below 2*ewidth", floor=9)
+    ctx.rule(R, "under dither the error vector is resized once to 2*ewidth (ewidth = width + 2) before the loops and every index col [+ ewidth] [+ k] stays below 2*ewidth", floor=3)
     b = bodies[QUANT]
     ev = evaluator(b)
-    keys, _obs, _k = site_key_by_bb(b)
     vecs = [l for l in range(len(b.locals)) if b.local_ty(l).startswith("std::vec::Vec<") and len(b.defs_of(l)) == 1]
     if len(vecs) != 1 or not q.get("ok"):
         ctx.anchor(R, "quantize/error-rows")
@@ -1268,10 +1630,13 @@ def total(ctx, bodies, q, kd):
         touching = [(bb, t) for bb, t in b.calls() if any(ev.operand(a, None) == E for a in t["args"])]
         rs = [(bb, t) for bb, t in touching if call_matches(t, r"Vec::<T, A>::resize_with$|Vec::<T, A>::resize$")]
         idxs = [(bb, t) for bb, t in touching if call_matches(t, r"Index<I>>::index$|IndexMut<I>>::index_mut$")]
-        other = [(bb, t) for bb, t in touching if (bb, t) not in rs and (bb, t) not in idxs]
+        # the two rows taken apart as slices: errors.split_at_mut(ewidth) (halves cannot change the vector's length)
+        splits = [(bb, t) for bb, t in touching if call_matches(t, r"slice::<impl \[T\]>::split_at(_mut)?$") and ev.operand(t["args"][0], None) == E]
+        other = [(bb, t) for bb, t in touching if (bb, t) not in rs and (bb, t) not in idxs and (bb, t) not in splits
+                 and not call_matches(t, r"Deref>::deref$|DerefMut>::deref_mut$|^std::ops::Deref(Mut)?::deref(_mut)?$")]      # Vec -> slice view (what is done with it is a call of its own)
         ew = None
         ok_rs = False
-        if len(rs) == 1 and not other and is_call(E, r"Vec::<T>::new$"):
+        if len(rs) == 1 and not other and is_call(E, r"Vec::<T>::new$|Vec::<T>::with_capacity$"):
             n = ev.operand(rs[0][1]["args"][1], None)
             ns = strip(n)
             if ns[0] == "bin" and ns[1] == "Mul" and ("c", "2") in (ns[2], ns[3]):
@@ -1282,9 +1647,8 @@ def total(ctx, bodies, q, kd):
             ok_ew = ews is not None and ews[0] == "bin" and ews[1] == "Add" and sorted([ews[2], ews[3]], key=repr) == sorted([strip(width), ("c", "2")], key=repr)
             cfg = b.cfg()
             # with the dither == false edges removed (the flag never changes), every access is reachable only through the resize
-            off = {(x, b.blocks[x]["term"]["targets"][0]) for x in range(len(b.blocks)) if b.blocks[x]["term"]["k"] == "switch"
-                   and ev.operand(b.blocks[x]["term"]["d"], None) == ("arg", 3) and b.blocks[x]["term"]["vals"] == ["0"]}
-            ok_dom = bool(off) and all(_only_through(cfg, rs[0][0], bb, off) for bb, t in idxs) and not any(rs[0][0] in lp["body"] for lp in q["loops"])
+            off = set(flag_edges(b, ev, ("arg", 3))[1])
+            ok_dom = bool(off) and all(_only_through(cfg, rs[0][0], bb, off) for bb, t in idxs + splits) and not any(rs[0][0] in lp["body"] for lp in q["loops"])
             ok_rs = ok_ew and ok_dom
             ctx.instance(R, {"resize": show(n)[:100], "ewidth": show(ew)[:80] if ew else None, "is_2*(width+2)": bool(ok_ew), "every_access_preceded_by_resize": ok_dom})
         else:
@@ -1298,8 +1662,22 @@ def total(ctx, bodies, q, kd):
             lm = linear_max(it, loops_by_item, ew, width) if ew else None
             ok = ok_rs and lm is not None and lm[0] <= 2 and lm[1] <= 3 and guarded
             ctx.instance(R, {"index": show(it)[:160], "max_as_(coef_of_width, const)": lm, "below_2*width+4": bool(ok)})
-            if ok and bb in keys:
-                lemmas[(QUANT, keys[bb])] = ("ERR-ROWS", "index <= %d*width%+d <= 2*width+3 < 2*(width+2) == errors.len() (resized under the same `dither` flag that guards the access)" % lm)
+            sites.vote(b, bb, ok, ("ERR-ROWS", "index <= %d*width%+d <= 2*width+3 < 2*(width+2) == errors.len() (resized under the same `dither` flag that guards the access)" % (lm or (0, 0))))
+        halves = []
+        for bb, t in splits:
+            mid = ev.operand(t["args"][1], None)
+            ok = bool(ok_rs and ew is not None and strip(mid) == strip(ew) and guarded)
+            ctx.instance(R, {"split_at": show(mid)[:100], "is_ewidth_of_the_2*ewidth_rows": ok})
+            sites.vote(b, bb, ok, ("ERR-ROWS", "mid == ewidth <= 2*ewidth == errors.len() (resized under the same `dither` flag that guards the access)"))
+            if ok:
+                st = ev.local(t["dest"]["l"], None) if not t["dest"]["p"] else None
+                halves.append({field(st, "0"), field(st, "1")})
+        for bb, t in b.calls():
+            if call_matches(t, r"slice::<impl \[T\]>::(copy_from_slice|clone_from_slice|swap_with_slice)$") and len(t["args"]) == 2:
+                pair = {ev.operand(t["args"][0], None), ev.operand(t["args"][1], None)}
+                if any(pair == h for h in halves):
+                    sites.vote(b, bb, True, ("ERR-ROWS", "the two halves of errors.split_at_mut(ewidth) with errors.len() == 2*ewidth have ewidth elements each"))
+        sites.commit()
 
     # ---------------- KD-INV: the k-d tree store invariants -------------------------------------------------------------------
     R = "KD-INV"
@@ -1310,11 +1688,19 @@ def total(ctx, bodies, q, kd):
     ctx.instance(R, {"INDEX-VALID_and_NEAREST-SHAPE_hold": struct_ok})
     # dim arguments
     dims = []
-    for cb in prog.bodies:
+    for cpath in sorted({owner(prog, c) for c in prog.callgraph().callers(KD_BUILD)}):
+        cb = expand(prog, cpath)
+        if cb is None:
+            continue
+        evc_, cps_ = paths_of(ctx, R, cb)
         for bb, t in cb.calls():
             if call_matches(t, r"^image::KDTree::new::build_rec$"):
                 d = strip(evaluator(cb).operand(t["args"][0], None))
-                good = (const_int(d) is not None and 0 <= const_int(d) < 3) or (d[0] == "bin" and d[1] == "Rem" and const_int(d[3]) is not None and 1 <= const_int(d[3]) <= 3)
+                # per path (the argument may be chosen by an `if` / `match`), with the facts of the path
+                seen_ = [(strip(c.args[0]), [strip(f) for f in cp.facts]) for cp in cps_ or [] for c in cp.calls if c.bb == bb]
+                good = all(dim_below_3(d_, fs_, cb.path == KD_BUILD) for d_, fs_ in seen_) if seen_ else dim_below_3(d, [], False)
+                if seen_ and d[0] == "var":
+                    d = seen_[0][0]
                 dims.append(good)
                 ctx.instance(R, {"build_rec_called_from": cb.path, "dim": show(d)[:60], "below_3": bool(good)})
                 if not good:
@@ -1336,15 +1722,17 @@ def total(ctx, bodies, q, kd):
             if isnone != empty or (not isnone and not nonempty):
                 none_ok = False
             pushes = [c.pos for c in p.calls if c.matches(r"Vec::<T, A>::push$") and c.args[0] == nvec]
+            # the minuends of the overflow-checked subtractions on this path (a len() that is only compared or asserted on does not matter)
+            minuends = [f[1][1][2] for f in p.asserts if f[0] == "false" and f[1][0] == "ovf" and f[1][1][1] == "SubWithOverflow"]
             for c in p.calls:
-                if c.matches(r"Vec::<T, A>::len$") and c.args[0] == nvec and not (pushes and min(pushes) < c.pos):
+                if c.matches(r"Vec::<T, A>::len$") and c.args[0] == nvec and c.term in minuends and not (pushes and min(pushes) < c.pos):
                     push_ok = False
                 if c.matches(r"index_mut$|Index.*::index$") and c.args[0] == cols and c.args[1][0] == "agg":
                     bnd = c.args[1][3][-1] if c.args[1][1] != "std::ops::RangeFrom" else c.args[1][3][0]
                     bs = strip(bnd)
                     if bs[0] == "bin" and bs[1] == "Add" and ("c", "1") in (bs[2], bs[3]):
                         bs = bs[2] if bs[3] == ("c", "1") else bs[3]
-                    good = bs[0] == "bin" and bs[1] == "Div" and is_len(bs[2]) and (const_int(bs[3]) or 0) >= 2 and nonempty
+                    good = is_half(bs, is_len) and nonempty
                     med_ok = med_ok and good
                     med_sites[c.bb] = good
         # the bounds-checked colors[m]
@@ -1352,7 +1740,7 @@ def total(ctx, bodies, q, kd):
             t = kb.blocks[x]["term"]
             if t["k"] == "assert" and t["msg"].get("kind") == "BoundsCheck":
                 i = strip(evb.operand(t["msg"]["index"], None))
-                good = i[0] == "bin" and i[1] == "Div" and is_len(i[2]) and (const_int(i[3]) or 0) >= 2
+                good = is_half(i, is_len)
                 med_sites[x] = good
                 med_ok = med_ok and good
         # every overflow-checked `x - 1` is nodes.len() - 1
@@ -1365,28 +1753,36 @@ def total(ctx, bodies, q, kd):
     ctx.instance(R, {"build_rec": "returns None exactly for the empty slice", "holds": none_ok})
     ctx.instance(R, {"build_rec": "nodes.len() - 1 is only computed after a push on the same path", "holds": push_ok})
     ctx.instance(R, {"build_rec": "slice bounds and median index are len/2 (+1) of the non-empty slice", "sites": len(med_sites), "holds": med_ok})
-    kkeys, _o, _k = site_key_by_bb(kb)
     if push_ok and struct_ok:
         lemmas[(KD_BUILD, "OVF")] = ("KD-INV", "nodes.len() >= 1 right after nodes.push(..) (the only overflow-checked subtraction is nodes.len() - 1 after a push)")
     elif not push_ok:
         ctx.violation(R, KD_BUILD, "len-after-push", "build_rec computes nodes.len() - 1 (or another checked subtraction) without a preceding push on the same path", sites=[kb.loc])
     if med_ok and struct_ok:
         for bb, good in med_sites.items():
-            if good and bb in kkeys:
-                lemmas[(KD_BUILD, kkeys[bb])] = ("KD-INV", "m = len/2 of a slice with len >= 1 (the empty slice returned None): m < len, m + 1 <= len")
+            sites.vote(kb, bb, good, ("KD-INV", "m = len/2 of a slice with len >= 1 (the empty slice returned None): m < len, m + 1 <= len"))
+        sites.commit()
     elif not med_ok:
         ctx.violation(R, KD_BUILD, "median", "a slice bound / index in build_rec is not len/2 (+1) of the non-empty colour slice", sites=[kb.loc])
     if not none_ok:
         ctx.violation(R, KD_BUILD, "empty-none", "build_rec does not return None exactly when its slice is empty (a non-empty palette must give a non-empty node vector)", sites=[kb.loc])
+    xr = bodies[KD_REC]
+    evr = evaluator(xr)
+    rec_checks = bounds_checks(xr, evr)
+    DIM_WHY = "KDNode.dim is build_rec's `dim` parameter (NEAREST-SHAPE build-dim), which is 0 at the root call and (dim + 1) % 3 in the recursion: < 3"
     if dim_ok:
-        for pth in (KD_REC, KD_BUILD + "::{closure#0}"):
-            lemmas[(pth, "BOUNDS-Index-2" if pth == KD_REC else "BOUNDS")] = (
-                "KD-INV", "KDNode.dim is build_rec's `dim` parameter (NEAREST-SHAPE build-dim), which is 0 at the root call and (dim + 1) % 3 in the recursion: < 3")
+        # every `x[node.dim]` on a 3-element array with `node` an element of the searched node slice
+        for x, i, ln in rec_checks:
+            if ln == ("c", "3") and i[0] == "f" and i[2] == "dim" and i[1][0] == "ix" and i[1][1] == ("arg", 1):
+                sites.vote(xr, x, True, ("KD-INV", DIM_WHY))
+        # the sort key closure(s) of build_rec index a colour by the captured `dim` (NEAREST-SHAPE build-dim checked the key)
+        for cpath in kd.get("sort_closures", ()):
+            lemmas[(cpath, "BOUNDS")] = ("KD-INV", DIM_WHY)
+        sites.commit()
     # callers of KDTree::find / find_rec inside the reach set
     cg = prog.callgraph()
     dyn, _init = cg.reach_split(ENTRIES)
-    c_find = sorted(c for c in cg.callers(KD_FIND) if c in dyn)
-    c_rec = sorted(c for c in cg.callers(KD_REC) if c in dyn)
+    c_find = sorted({owner(prog, c) for c in cg.callers(KD_FIND) if c in dyn})
+    c_rec = sorted({owner(prog, c) for c in cg.callers(KD_REC) if c in dyn})
     callers_ok = c_find == [PAL_FIND] and c_rec == sorted([KD_FIND, KD_REC])
     ctx.instance(R, {"callers_of_KDTree::find_in_reach": c_find, "callers_of_find_rec": c_rec, "ok": callers_ok})
     if not callers_ok:
@@ -1395,18 +1791,37 @@ def total(ctx, bodies, q, kd):
         lemmas[(KD_FIND, "OVF-Sub-1")] = ("KD-INV", "self.nodes is non-empty: ColorPalette::new rejects an empty vector, KDTree::new hands all colours to build_rec, which pushes a node for every non-empty slice; "
                                                     "no writer of ColorPalette / KDTree fields outside their constructors")
         if push_ok:
-            lemmas[(KD_REC, "BOUNDS-Index-1")] = ("KD-INV", "index is the root nodes.len() - 1 or a child index stored by build_rec = position of a node pushed earlier into the same, only growing vector; "
-                                                            "KDNode / KDTree are never modified after construction")
+            # `nodes[index]` with find_rec's own parameters (NEAREST-SHAPE rec-args / root: index is the root or a child index of a visited node)
+            for x, i, ln in rec_checks:
+                if i == ("arg", 2) and ln == ("un", "PtrMetadata", ("arg", 1)):
+                    sites.vote(xr, x, True, ("KD-INV", "index is the root nodes.len() - 1 or a child index stored by build_rec = position of a node pushed earlier into the same, only growing vector; "
+                                                       "KDNode / KDTree are never modified after construction"))
+            sites.commit()
 
     # ---------------- METRIC-RANGE -----------------------------------------------------------------------------------------
     if clean("NEAREST-SHAPE"):
         db = bodies[KD_DIST]
         kn = prog.adts.get("image::KDNode") or {"variants": []}
         col_ty = [f.get("ty") for v in kn["variants"] for f in v.get("fields", []) if f.get("name") == "color"]
-        u8 = db.local_ty(1) == "[u8; 3]" and col_ty == ["[u8; 3]"]
-        ctx.instance("KD-INV", {"metric_operands": [db.local_ty(1), col_ty], "are_u8_channels": u8})
+        tgt_ty = db.local_ty(1) if db is not None else xr.local_ty(3)
+        u8 = tgt_ty == "[u8; 3]" and col_ty == ["[u8; 3]"]
+        ctx.instance("KD-INV", {"metric_operands": [tgt_ty, col_ty], "are_u8_channels": u8})
+        WHY = "the metric is a sum of three squares of differences of u8 values (NEAREST-SHAPE metric): at most 3 * 255^2 = 195075 < 2^31"
+        if u8 and db is not None:
+            lemmas[(KD_DIST, "OVF")] = ("METRIC-RANGE", WHY)
         if u8:
-            lemmas[(KD_DIST, "OVF")] = ("METRIC-RANGE", "the metric is a sum of three squares of differences of u8 values (NEAREST-SHAPE metric): at most 3 * 255^2 = 195075 < 2^31")
+            for cpath in kd.get("metric_closures", ()):      # |(a, b)| (a - b)^2 over the zipped u8 channels
+                lemmas[(cpath, "OVF")] = ("METRIC-RANGE", "one squared difference of two u8 channels widened to a signed type: |a - b| <= 255, (a - b)^2 <= 65025")
+        if u8 and kd.get("inline_metric"):
+            # the metric written out in find_rec: every checked operation that computes a part of it
+            parts = {t for m in kd["inline_metric"] for t in subterms(m) if t[0] == "bin"}
+            for x, blk in enumerate(xr.blocks):
+                t = blk["term"]
+                if not blk["cleanup"] and t["k"] == "assert" and t["msg"].get("kind") == "Overflow":
+                    r = strip(("bin", t["msg"]["op"], evr.operand(t["msg"]["a"], None), evr.operand(t["msg"]["b"], None)))
+                    if r in parts:
+                        sites.vote(xr, x, True, ("METRIC-RANGE", WHY))
+            sites.commit()
 
     # ---------------- OCTREE-INV ---------------------------------------------------------------------------------------------
     octree_inv(ctx, bodies, lemmas, trusts)
@@ -1455,24 +1870,34 @@ def total(ctx, bodies, q, kd):
             return 0 <= const_int(t) <= 255
         return isinstance(t, tuple) and t[0] == "cast" and t[1] == "usize" and t[2][0] == "ix" and is_call(t[2][1], r"::to_rgb$|::to_rgba$")
 
-    def assume_filter(b, o):
-        ev_ = evs.setdefault(b.path, evaluator(b))
-        if o.kind == "OVF" and o.sub in ("Add", "Mul") and usize_operands(b, o):
-            m = o.term["msg"]
+    def assume_one(xb, x, o):
+        ev_ = evs.setdefault(id(xb), evaluator(xb))
+        t = xb.blocks[x]["term"]
+        if o.kind == "OVF" and o.sub in ("Add", "Mul"):
+            m = t["msg"]
             ta, tb = ev_.operand(m["a"], None), ev_.operand(m["b"], None)
-            if b.path in (QUANT, PAL_FROM):
-                ba, bb_ = size_bound(b, ta), size_bound(b, tb)
+            if xb.path in (QUANT, PAL_FROM):
+                ba, bb_ = size_bound(xb, ta), size_bound(xb, tb)
                 if ba is not None and bb_ is not None and (ba + bb_ if o.sub == "Add" else ba * bb_) < 2 ** 64:
                     return ("SIZE-BOUND", "operands are built from image dimensions / palette size (each below 2^31) and constants: result below %d < 2^64" % (ba + bb_ if o.sub == "Add" else ba * bb_))
-            if b.path in ACC and o.sub == "Add" and acc_operand(ta) and acc_operand(tb):
+            if xb.path in ACC and o.sub == "Add" and acc_operand(ta) and acc_operand(tb):
                 return ("PIXEL-COUNT", "per-pixel accumulators (channel sums <= 255 * pixels, leaf and colour counts <= pixels) with fewer than 2^48 pixels")
-        if o.kind == "DIV0" and b.path == PAL_FROM:
-            d = strip(ev_.operand(o.term["cond"], None))
+        if o.kind == "DIV0" and xb.path == PAL_FROM:
+            d = strip(ev_.operand(t["cond"], None))
             if d[0] == "bin" and d[1] == "Eq" and d[3] == ("c", "0"):
-                x = d[2]
-                if x == ("arg", 2) or (x[0] == "bin" and x[1] == "Mul" and ("arg", 2) in (x[2], x[3]) and any((const_int(y) or 0) >= 1 for y in (x[2], x[3]))):
+                x_ = d[2]
+                if x_ == ("arg", 2) or (x_[0] == "bin" and x_[1] == "Mul" and ("arg", 2) in (x_[2], x_[3]) and any((const_int(y) or 0) >= 1 for y in (x_[2], x_[3]))):
                     return ("SIZE-BOUND", "palette_size >= 1 (quantifier of the property), so palette_size * k is not zero")
         return None
+
+    def assume_filter(b, o):
+        """decided where the statement is evaluated: in b itself or, for a helper used by one function only, in every copy expanded there"""
+        if o.term is None or o.term.get("k") != "assert":
+            return None
+        if o.kind == "OVF" and not (o.sub in ("Add", "Mul") and usize_operands(b, o)):
+            return None
+        hits = [assume_one(xb, x, o) for xb, x in copies_of(prog, b, o.bb)]
+        return hits[0] if hits and all(hits) else None
 
     oblrules.run(ctx, "TOTAL", ENTRIES, lossy=False, lemmas=lemmas, trusts=trusts, scope=lambda b: b.file == "src/image.rs", floor_bodies=60,
                  assume_filter=assume_filter,
@@ -1563,7 +1988,7 @@ def octree_inv(ctx, bodies, lemmas, trusts):
     for p in P[ARGMIN + "::{closure#0}"]:
         r = strip(p.ret) if p.ret is not None else None
         if r is not None and r[0] == "agg" and r[2] == "Some":
-            ok_arg = ok_arg and r[3][0][0] == "tuple" and r[3][0][1][0] == field(("arg", 2), "0") and ("is", mcc, "0") in [strip(f) for f in p.facts]
+            ok_arg = ok_arg and r[3][0][0] == "tuple" and r[3][0][1][0] == field(("arg", 2), "0") and variant_known([strip(f) for f in p.facts], mcc, "0")
         elif r is not None and is_call(r, r"from_residual$"):
             pass
         elif not (r is not None and r[0] == "agg" and r[2] == "None"):
@@ -1572,7 +1997,7 @@ def octree_inv(ctx, bodies, lemmas, trusts):
     vs = dict((n, str(d if d is not None else i)) for i, (n, d) in enumerate(prog.enum_variants("image::OcTreeNode") or []))
     ok_info = "Empty" in vs
     for p in P["image::OcTreeNode::info"]:
-        if ("is", ("arg", 1), vs.get("Empty")) in p.facts:
+        if variant_known(p.facts, ("arg", 1), vs.get("Empty"), tuple(vs.values())):
             ok_info = ok_info and is_call(p.ret, r"^image::OcTreeInfo::empty$")
     ok_info = ok_info and all(p.ret is not None and p.ret[0] == "agg" and dict(zip(p.ret[4], p.ret[3])).get("min_color_count", ("?",))[:3] == ("agg", "std::option::Option", "None") for p in P["image::OcTreeInfo::empty"])
     ctx.instance(R, {"OcTreeNode::info": "Empty -> OcTreeInfo::empty() whose min_color_count is None", "holds": ok_info})
@@ -1607,7 +2032,7 @@ def octree_inv(ctx, bodies, lemmas, trusts):
     ctx.instance(R, {"children_index_sources": sorted(set(users))[:8], "all_from_OcTreePath::next_or_argmin": ok_users})
     nu = need["image::OcTree::node_update"]
     cg = prog.callgraph()
-    nu_callers = sorted(cg.callers(nu.path))
+    nu_callers = sorted({owner(prog, c) for c in cg.callers(nu.path)})
     ok_callers = all(re.match(r"^image::OcTree::(insert|prune)", c) for c in nu_callers)
     ctx.instance(R, {"callers_of_node_update": nu_callers, "all_checked": ok_callers})
     if ok_next and ok_arg and ok_len and ok_users and ok_callers:
@@ -1623,14 +2048,14 @@ def octree_inv(ctx, bodies, lemmas, trusts):
         ctx.violation(R, "image::OcTree::prune", "argmin-nonempty", "the child selected by argmin_color_count is not provably non-empty when it is taken", sites=[need["image::OcTree::prune"].loc])
     # (4) who-writes for the two trusted invariants
     aggs, stores, muts = adt_writers(prog, "image::OcTreeNode")
-    tree_sites = sorted({b_.path for b_, s in aggs if s["rv"].get("variant") == "Tree"})
-    leaf_sites = sorted({b_.path for b_, s in aggs if s["rv"].get("variant") == "Leaf"})
+    tree_sites = sorted({owner(prog, b_.path) for b_, s in aggs if s["rv"].get("variant") == "Tree"})
+    leaf_sites = sorted({owner(prog, b_.path) for b_, s in aggs if s["rv"].get("variant") == "Leaf"})
     CLONE = "<image::OcTreeNode as std::clone::Clone>::clone"      # derived: replicates an existing node
     ok_tree = set(tree_sites) <= {"image::OcTree::insert::insert_rec", "image::OcTree::prune::prune_rec", CLONE}
     nxt = ("call", NEXT, (("arg", 2),), None)
     for p in P["image::OcTree::insert::insert_rec"]:
         if p.ret is not None and p.ret[0] == "agg" and p.ret[2] == "Tree":
-            ok_tree = ok_tree and any(strip(f) == ("is", nxt, "1") for f in p.facts)
+            ok_tree = ok_tree and variant_known([strip(f) for f in p.facts], nxt, "1")
     ctx.instance(R, {"OcTreeNode::Tree_built_in": tree_sites, "insert_rec_builds_Tree_only_while_the_path_has_an_element": ok_tree})
     if ok_tree:
         trusts[("image::OcTree::insert::insert_rec", "PANIC")] = ("OCTREE-DEPTH", "every colour path has 8 elements, and a Tree node is only created (insert_rec) or re-wrapped (prune_rec) at a depth where the path still "
@@ -1638,7 +2063,7 @@ def octree_inv(ctx, bodies, lemmas, trusts):
     else:
         ctx.violation(R, "image::OcTreeNode", "tree-writers", "OcTreeNode::Tree is built outside insert_rec's non-exhausted arm / prune_rec: %s" % tree_sites, sites=[])
     laggs, lstores, lmuts = adt_writers(prog, "image::OcTreeLeaf")
-    lsites = sorted({b_.path for b_, s in laggs})
+    lsites = sorted({owner(prog, b_.path) for b_, s in laggs})
     fr = P["image::OcTreeLeaf::from_rgba"]
     ok_leaf = set(leaf_sites) <= {"image::OcTree::insert::insert_rec", "image::OcTree::prune::prune_rec", CLONE} and set(lsites) <= {"image::OcTreeLeaf::new", "image::OcTreeLeaf::from_rgba"} \
         and all((const_int(dict(zip(p.ret[4], p.ret[3])).get("color_count")) or 0) >= 1 for p in fr if p.ret is not None and p.ret[0] == "agg") \
